@@ -596,6 +596,10 @@ WITNESSES = [
      "importGraphIsCyclic recurses forever on main -> a -> b -> a"),
     ("T1", {"main": b"fn main() { spawn nope(); }", "mods": {}}, "spawn of something that is not callable: nil result type dereferenced"),
     ("T1", {"main": b"fn n(){spawn a", "mods": {}}, "spawn of an unknown function in a truncated program"),
+    ("T2", {"main": b"import trigger U from lib;\nfn cb() {}\nfn main() { trigger cb at U(); }\n", "mods": {"lib": b"fn main() {}\n"}},
+     "trigger statement on a trigger whose import failed: nil parameter type"),
+    ("T2", {"main": b"import trigger U from lib;\n#[trigger at U()]\nfn f() {}\nfn main() {}\n", "mods": {"lib": b"fn main() {}\n"}},
+     "trigger annotation on a trigger whose import failed: nil return type"),
 ]
 
 
@@ -603,7 +607,6 @@ def build_streams(ctx, toks, corp, want_items=False):
     """The input streams of C05/C08 as a list of (stream name, [case]). Sizes depend on ctx.tier."""
     rng = ctx.rng
     quick = ctx.tier == "quick"
-    streams = []
     mods_all = dict(corp)
 
     # nesting towers, entry and imported
@@ -613,19 +616,19 @@ def build_streams(ctx, toks, corp, want_items=False):
         c = as_import(t)
         c["stream"] = "tower-import:" + n
         tw.append(c)
-    streams.append(("towers", tw))
+    yield "towers", tw
 
     # import graphs of every shape over <= 3 modules, chains
     g = import_graphs(3)
     for d in (2, 10, 200):
         g += import_chain(d)
-    streams.append(("import-graphs", g))
+    yield "import-graphs", g
 
     # corpus: every shipped program with all the others available as modules
     cs = [{"main": t, "mods": mods_all, "stream": "corpus:" + n} for n, t in corp]
     gens = generated_programs(rng, 10 if quick else 60)
     cs += [{"main": t, "mods": {}, "stream": "generated:" + n} for n, t in gens]
-    streams.append(("corpus", cs))
+    yield "corpus", cs
 
     # every prefix (rune boundaries), byte truncations; a share of them as imported module
     pf = []
@@ -638,23 +641,23 @@ def build_streams(ctx, toks, corp, want_items=False):
                 pf.append(c)
         for p in byte_truncations(t, rng, 10):
             pf.append({"main": p, "mods": {}, "stream": "byte-truncation:" + n})
-    streams.append(("prefixes", pf))
+    yield "prefixes", pf
 
     # single-token edits
     base = [(n, t) for n, t in corp + gens if len(t) < 8000]
     spans = token_spans([t.decode("utf-8", "replace") for _, t in base])
     ed = []
     for (n, t), sp in zip(base, spans):
-        for op, e in token_edits(t, sp, toks, rng, 250 if quick else 10 ** 9):
+        for op, e in token_edits(t, sp, toks, rng, 250 if quick else 2000):
             ed.append({"main": e, "mods": {k: v for k, v in mods_all.items() if k != n}, "stream": f"edit-{op}:{n}"})
             if rng.random() < (0.15 if quick else 0.5):
                 c = as_import(e)
                 c["stream"] = f"edit-{op}-import:{n}"
                 ed.append(c)
-    streams.append(("token-edits", ed))
+    yield "token-edits", ed
 
     # token soup, structured soup, arbitrary bytes
-    n_soup = 6000 if quick else 150000
+    n_soup = 6000 if quick else 70000
     sp = []
     for _ in range(n_soup):
         sp.append({"main": token_soup(rng, toks, rng.randrange(1, 40)), "mods": {}, "stream": "soup"})
@@ -664,10 +667,10 @@ def build_streams(ctx, toks, corp, want_items=False):
             c = as_import(structured_soup(rng, toks, rng.randrange(1, 30)))
             c["stream"] = "structured-soup-import"
             sp.append(c)
-    streams.append(("soup", sp))
+    yield "soup", sp
 
     # grammar-directed programs (syntactically valid, semantically arbitrary)
-    streams.append(("wild", wild_cases(rng, 8000 if quick else 200000)))
+    yield "wild", wild_cases(rng, 8000 if quick else 120000)
 
     # 64 KiB inputs
     bg = []
@@ -676,8 +679,7 @@ def build_streams(ctx, toks, corp, want_items=False):
         c = as_import(t)
         c["stream"] = "big-import:" + n
         bg.append(c)
-    streams.append(("big", bg))
-    return streams
+    yield "big", bg
 
 
 # ---------------------------------------------------------------------------
